@@ -97,6 +97,14 @@ async fn run_plan(plan: &Plan) -> Result<Outcome, String> {
             latest.insert(*k, None);
         }
         total_deletes += cy.deletes.len();
+        // a few keys are (re-)inserted and removed again back to back: the remove arrives while the insert is still queued
+        for (j, k) in cy.deletes.iter().take(3).enumerate() {
+            if (ci + j) % 2 == 0 {
+                ex.step(&HOp::Insert { k: *k, size: 64, loc: Loc::Default }).await;
+                ex.step(&HOp::Remove { k: *k }).await;
+                latest.insert(*k, None);
+            }
+        }
         ex.step(&HOp::Wait).await;
         for k in &cy.reinserts {
             let o = ex.step(&HOp::Insert { k: *k, size: 64, loc: Loc::Default }).await;
